@@ -177,7 +177,7 @@ def g_shape(rng, n):
     out = []
     arts = None
     for i in range(n):
-        kind = rng.choice(['box', 'rbox', 'run', 'arrow', 'bullet', 'circle', 'nested', 'ubox', 'tagbox', 'multi', 'arc', 'arc'])
+        kind = rng.choice(['box', 'rbox', 'run', 'arrow', 'bullet', 'circle', 'nested', 'ubox', 'tagbox', 'multi', 'arc', 'arc', 'touching'])
         x = rng.choice([0, 0, 1, 2, 5]); y = rng.choice([0, 0, 1, 3])
         if kind == 'box':
             w = rng.randint(0, 12); h = rng.randint(0, 5)
@@ -224,6 +224,18 @@ def g_shape(rng, n):
             rows = list(rng.choice(arts))
             if rng.random() < 0.3:
                 rows = overlay(rows, [rng.choice(['ab', '--', '+', '*'])], len(max(rows, key=len)) + rng.randint(1, 3), rng.randint(0, len(rows)))
+        elif kind == 'touching':
+            # catalogue circles that touch each other or a box: side by side without a gap, one right under the other, next to a wall
+            if arts is None: arts = circles_art()
+            small = [a for a in arts if len(a) <= 3]
+            a = list(rng.choice(small if rng.random() < 0.7 else arts)); b = list(rng.choice(small if rng.random() < 0.7 else arts))
+            how = rng.choice(['side', 'under', 'box', 'three'])
+            wa = max(len(r) for r in a)
+            if how == 'side': rows = [(a[i] if i < len(a) else '').ljust(wa) + (b[i] if i < len(b) else '') for i in range(max(len(a), len(b)))]
+            elif how == 'under': rows = a + b
+            elif how == 'three': rows = [(a[i] if i < len(a) else '').ljust(wa) * 3 for i in range(len(a))]
+            else:
+                bx = box(rng.randint(1, 3), max(len(a), 1)); rows = [bx[0]] + [bx[1 + i] + (a[i] if i < len(a) else '') for i in range(len(bx) - 2)] + [bx[-1]]
         elif kind == 'arc':
             if not hasattr(g_shape, '_arcs'): g_shape._arcs = arcs_art()
             rows = arc_with_legs(rng, g_shape._arcs)
